@@ -172,7 +172,7 @@ func (s *c14Scenario) serial(first int) (string, [2]int) {
 func checkC14(c *Ctx) {
 	c.Rule = "controlled two-activity scheduler: one API request and one poll step (1-3 board messages) run in goroutines on the same real node service; every State/Storage call first asks for the baton. All schedules with at most 2 (quick) / 3 (thorough) pre-emptions are enumerated per (request kind, message kind) scenario, each replayed from a snapshot; the final logical state (operation pool, tombstones, round projections, signature stores, offset, messages posted; ids/times masked) must equal the final state of one of the two serial orders. Thorough adds a free-running soak of the same pairs on real LevelDB with the real Poll() under the Go race detector. A schedule after which every unfinished activity is parked on a mutex for good (wait states from the goroutine dump, no scheduling point reached on 12 consecutive samples) is a violation (deadlock). One schedule per scenario injects a slow board send; a refused reset on real LevelDB followed by a poll step runs under the hang observation. distinct = distinct executed interleavings (grant traces)"
 	c.Assumptions = []string{"MemState (one lock per call, like LevelDBState.Get/Set) for the enumerated schedules; LevelDBState itself only in the race soak", "scheduling granularity = State/Storage interface calls"}
-	builders := []func(seed uint64) (*c14Scenario, error){scnSubmitVsProposal, scnApproveVsOtherRound, scnReinitFinishVsOtherRound, scnResetVsPoll, scnSaveOffsetVsPoll, scnSubmitVsSameRound, scnSubmitVsSignatures, scnReinitFinishVsSameRoundProposal, scnReinitFinishVsOtherReinit, scnSecondApproveVsOtherRound, scnListOperationsVsPoll}
+	builders := []func(seed uint64) (*c14Scenario, error){scnSubmitVsProposal, scnApproveVsOtherRound, scnReinitFinishVsOtherRound, scnResetVsPoll, scnSaveOffsetVsPoll, scnSubmitVsSameRound, scnSubmitVsSignatures, scnReinitFinishVsSameRoundProposal, scnReinitFinishVsOtherReinit, scnSecondApproveVsOtherRound, scnListOperationsVsPoll, scnSubmitNewerOfTwoVsOtherRound}
 	maxPre := c.Pick(2, 3)
 	Parallel(len(builders), 8, func(bi int) {
 		s, err := builders[bi](c.Seed*1000 + uint64(bi))
@@ -320,6 +320,48 @@ func diffKinds(f, a, b string) string {
 
 func baseWorld(seed uint64, n, t int) (*Ceremony, error) {
 	return NewCeremony(seed, n, t, world.EagerPolicy)
+}
+
+// the slow signer holds two invitations of the same round (batch 1 was completed without it, batch 2 is being
+// collected); it submits the answer to the newer one while the poller handles the opening of another round
+func scnSubmitNewerOfTwoVsOtherRound(seed uint64) (*c14Scenario, error) {
+	ce, err := baseWorld(seed, 3, 2)
+	if err != nil {
+		return nil, err
+	}
+	w := ce.W
+	v := w.Nodes[2]
+	if _, err := ce.RunBatch(BatchSpec{Proposer: 0, Signers: []int{0, 1}, NoLate: true, Data: map[string][]byte{"one": []byte("1")}}, world.EagerPolicy); err != nil {
+		ce.Close()
+		return nil, err
+	}
+	if err := w.ProposeSign(1, ce.Round, map[string][]byte{"two": []byte("2")}, nil); err != nil {
+		ce.Close()
+		return nil, err
+	}
+	_, _ = v.PollStep(0)
+	ops := w.PendingOps(v)
+	if len(ops) != 2 {
+		ce.Close()
+		return nil, fmt.Errorf("expected two pending invitations on the slow signer, have %d", len(ops))
+	}
+	newer := ops[0]
+	if ops[1].CreatedAt.After(newer.CreatedAt) {
+		newer = ops[1]
+	}
+	res, err := w.ColdResult(v, newer, false)
+	if err != nil {
+		ce.Close()
+		return nil, err
+	}
+	if _, err := w.StartDKG(0, 2, now()); err != nil {
+		ce.Close()
+		return nil, err
+	}
+	s := &c14Scenario{Name: "submit-newer-of-two-answers||poll-opening-of-another-round", W: w, V: v, Snap: v.Mem.Snapshot(), Board: w.Board.Len(), Closer: ce.Close}
+	s.API = func() error { return viaREST(v).Submit(mkReq(res)) }
+	s.Poll = func() error { _, err := v.PollStep(0); return err }
+	return s, nil
 }
 
 // submit the (late) answer to batch 1 while the poller handles the proposal of batch 2
